@@ -87,7 +87,7 @@ func TestDecodeGeneratedHistories(t *testing.T) {
 		}
 	})
 	t.Logf("decoded entries per class: %v", classes)
-	for _, c := range []string{Balance, FeePool, FeeShare, StakeLocked, StakeValDeleg, StakeValTotal} {
+	for _, c := range []string{Balance, FeePool, FeeShare, StakeLocked, StakeValDeleg, StakeValTotal, ProposalEscrow, ProposalFunder} {
 		if classes[c] == 0 {
 			t.Errorf("class %s never decoded", c)
 		}
